@@ -23,7 +23,29 @@ type qprog struct {
 	Closer    bool    `json:"closer,omitempty"`     // the producer that finishes last closes the queue
 	Observer  int     `json:"observer,omitempty"`   // number of observer calls (GetSize, IsEmpty, AsArray, GetIterator in turn)
 	RemoveAll int     `json:"remove_all,omitempty"` // number of RemoveAll calls by an extra thread
+	Elem      string  `json:"elem,omitempty"`       // element type of the queue: int (default), any, anynil, string -- see queueCodec
 }
+
+// The programs are written over the values 1, 2, 3, ...; a codec turns them into the queue's elements.
+// "any" maps 1, 2, 3 to "", a nil slice and a nil pointer inside an interface, "anynil" maps 1 to nil
+// itself, "string" maps 1 to "": values a queue must carry like any other.
+func shifted[E any](cd lib.Codec[E]) lib.Codec[E] {
+	return lib.Codec[E]{Name: cd.Name, Enc: func(c int) E { return cd.Enc(c - 1) }, Dec: func(v E) int { return cd.Dec(v) + 1 }}
+}
+
+func runProgram(p qprog, src core.Source) *qrun {
+	switch p.Elem {
+	case "any":
+		return runProgramE(p, src, lib.CdAny)
+	case "anynil":
+		return runProgramE(p, src, shifted(lib.CdAny))
+	case "string":
+		return runProgramE(p, src, shifted(lib.CdString))
+	}
+	return runProgramE(p, src, lib.CdInt)
+}
+
+var queueElems = []string{"", "", "any", "anynil", "string"}
 
 func (p qprog) wellFormed() bool {
 	if !p.Closer || len(p.Producers) == 0 || len(p.Consumers) == 0 {
@@ -80,9 +102,9 @@ func (r *qrun) call(thread, op string, arg int, f func(e *qevent)) (panicked boo
 }
 
 // runProgram executes the program under a scheduler that takes its decisions from src.
-func runProgram(p qprog, src core.Source) *qrun {
+func runProgramE[E any](p qprog, src core.Source, cd lib.Codec[E]) *qrun {
 	r := &qrun{prog: p}
-	q := col.Queue[int](lib.Notation()).MakeWithCapacity(p.Cap)
+	q := col.Queue[E](lib.Notation()).MakeWithCapacity(p.Cap)
 	s := sched.New(src, p.RemoveAll > 0)
 	uninstall := s.Install()
 	defer uninstall()
@@ -91,7 +113,7 @@ func runProgram(p qprog, src core.Source) *qrun {
 		name, vals := fmt.Sprintf("P%d", i), vals
 		s.Go(name, func() {
 			for _, v := range vals {
-				if r.call(name, "Add", v, func(e *qevent) { q.AddValue(v) }) {
+				if r.call(name, "Add", v, func(e *qevent) { q.AddValue(cd.Enc(v)) }) {
 					return
 				}
 			}
@@ -106,7 +128,14 @@ func runProgram(p qprog, src core.Source) *qrun {
 		s.Go(name, func() {
 			for k := 0; n < 0 || k < n; k++ {
 				ok := false
-				if r.call(name, "Remove", 0, func(e *qevent) { e.Val, e.OK = q.RemoveHead(); ok = e.OK }) {
+				if r.call(name, "Remove", 0, func(e *qevent) {
+				var head E
+				head, e.OK = q.RemoveHead()
+				ok = e.OK
+				if ok {
+					e.Val = cd.Dec(head)
+				}
+			}) {
 					return
 				}
 				if !ok {
@@ -120,7 +149,7 @@ func runProgram(p qprog, src core.Source) *qrun {
 			for k := 0; k < p.Observer; k++ {
 				switch {
 				case k%2 == 0:
-					r.call("O", "AsArray", 0, func(e *qevent) { e.Arr = append([]int{}, q.AsArray()...) })
+					r.call("O", "AsArray", 0, func(e *qevent) { e.Arr = append([]int{}, lib.DecAll(cd, q.AsArray())...) })
 				case k%6 == 1:
 					r.call("O", "GetSize", 0, func(e *qevent) { e.Val = q.GetSize() })
 				case k%6 == 3:
@@ -130,7 +159,7 @@ func runProgram(p qprog, src core.Source) *qrun {
 						it := q.GetIterator()
 						e.Arr = []int{}
 						for it.HasNext() {
-							e.Arr = append(e.Arr, it.GetNext())
+							e.Arr = append(e.Arr, cd.Dec(it.GetNext()))
 						}
 					})
 				}
@@ -587,6 +616,24 @@ var fixedPrograms = []qprog{
 	{Name: "1p2v-0c-cap2-removeall-observer", Cap: 2, Producers: [][]int{{1, 2}}, Consumers: []int{}, RemoveAll: 1, Observer: 2},
 }
 
+// the small fixed programs again, on queues of other element types (enumerated as a sub-check of their own)
+var elemPrograms []qprog
+
+func init() {
+	for _, x := range []struct {
+		i    int
+		elem string
+	}{{0, "any"}, {0, "anynil"}, {4, "string"}, {5, "anynil"}, {3, "anynil"}, {10, "anynil"}} {
+		p := fixedPrograms[x.i]
+		p.Name, p.Elem = p.Name+"/"+x.elem, x.elem
+		elemPrograms = append(elemPrograms, p)
+	}
+}
+
+func genElemProgram(s core.Source) qprog {
+	return elemPrograms[s.Choose(len(elemPrograms), "program")]
+}
+
 func genFixedProgram(s core.Source) qprog {
 	return fixedPrograms[s.Choose(len(fixedPrograms), "program")]
 }
@@ -619,6 +666,7 @@ func genRandomProgram(s core.Source) qprog {
 	if s.Choose(4, "removeall") == 0 {
 		p.RemoveAll = 1
 	}
+	p.Elem = core.Pick(s, queueElems, "elem")
 	return p
 }
 
@@ -667,6 +715,9 @@ func execProgram(prop string) func(qprog, core.Source) core.Result {
 		}
 		if p.Name != "" {
 			res.Classes = append(res.Classes, "program-"+p.Name)
+		}
+		if p.Elem != "" {
+			res.Classes = append(res.Classes, "elem-"+p.Elem)
 		}
 		return
 	}
@@ -747,6 +798,7 @@ func TestC04(t *testing.T) {
 	r := core.Begin(t, "C04")
 	defer r.End()
 	core.DFS(r, core.Check[qprog]{Name: "all-schedules", Gen: genFixedProgram, Exec: execProgram("C04"), Bounded: true}, r.N(40000, 2000000))
+	core.DFS(r, core.Check[qprog]{Name: "all-schedules-element-types", Gen: genElemProgram, Exec: execProgram("C04"), Bounded: true}, r.N(4000, 200000))
 	core.Rapid(r, core.Check[qprog]{Name: "sampled-schedules", Gen: genRandomProgram, Exec: execProgram("C04")}, r.N(2500, 50000))
 	familySweep(r, "C04")
 }
@@ -755,6 +807,7 @@ func TestC05(t *testing.T) {
 	r := core.Begin(t, "C05")
 	defer r.End()
 	core.DFS(r, core.Check[qprog]{Name: "all-schedules", Gen: genFixedProgram, Exec: execProgram("C05"), Bounded: true}, r.N(40000, 2000000))
+	core.DFS(r, core.Check[qprog]{Name: "all-schedules-element-types", Gen: genElemProgram, Exec: execProgram("C05"), Bounded: true}, r.N(4000, 200000))
 	core.Rapid(r, core.Check[qprog]{Name: "sampled-schedules", Gen: genRandomProgram, Exec: execProgram("C05")}, r.N(2500, 50000))
 	core.DFS(r, core.Check[ctorCase]{Name: "constructors", Gen: genCtor, Exec: execCtor}, 0)
 	familySweep(r, "C05")
